@@ -134,6 +134,7 @@ class Ctx:
         self.shadow_cache = [{}, {}]
         self.shadow_state = [(True, 0, 0), (True, 0, 0)]
         self.shadow_skips = 0
+        self.no_solver_in_execution = False
 
     # -- numeric shadows -----------------------------------------------------------------
     # Two concrete points of the input space at which every generator gets the value of the
@@ -351,7 +352,27 @@ class Ctx:
                         active_gens.update(g)
                         changed = True
 
+        goal_gens = set(active_gens)
         close()
+        # distance of every fact from the goal in the generator-sharing graph
+        layer = {}
+        frontier = set(goal_gens)
+        remaining = list(pool)
+        depth = 0
+        while remaining:
+            now, later = [], []
+            for f in remaining:
+                g = self.fact_gens(f)
+                (now if (not g or (g & frontier)) else later).append(f)
+            if not now:
+                for f in later:
+                    layer[id(f)] = depth + 5
+                break
+            for f in now:
+                layer[id(f)] = depth
+                frontier |= self.fact_gens(f)
+            remaining = later
+            depth += 1
         added: list[Fact] = []
         added_ids = set()
         deadline = time.time() + 4 * timeout_ms / 1000.0
@@ -383,8 +404,12 @@ class Ctx:
             if not newly:
                 return "sat", m, {"iters": it, "facts": len(added)}
             # add violated relations first; ranges / quadrant facts only when no relation is violated
-            rels = [f for f in newly if f.kind in ("rel", "defd", "dom")]
-            chosen = rels if rels else newly
+            # nearest facts first (those that speak about the goal's own generators); relations before
+            # ranges and quadrant facts within a layer
+            lo = min(layer.get(id(f), 99) for f in newly)
+            near = [f for f in newly if layer.get(id(f), 99) == lo]
+            rels = [f for f in near if f.kind in ("rel", "defd", "dom")]
+            chosen = rels if rels else near
             for f in chosen:
                 added.append(f)
                 added_ids.add(id(f))
@@ -404,6 +429,8 @@ class Ctx:
 
     def entails(self, f, kind="prune"):
         """cheap entailment used for if-then-else pruning and generator merging"""
+        if self.no_solver_in_execution:
+            return False  # structural runs: keep every if-then-else, create every generator
         key = f.get_id()
         if key in self.prune_cache:
             return self.prune_cache[key][1]
@@ -933,7 +960,7 @@ def _lin(t, allow_const=False):
             f = 1 / _q(b0)
             a, pc, kc = _lin(a0)
             return {i: (at, co * f) for i, (at, co) in a.items()}, pc * f, kc * f
-    if k == z3.Z3_OP_ITE:
+    if k == z3.Z3_OP_ITE and not c.no_solver_in_execution:
         raise Unsupported("if-then-else inside an angle / exponent argument")
     c.keep.append(t)
     return {t.get_id(): (t, Fraction(1))}, Fraction(0), Fraction(0)
@@ -1020,7 +1047,7 @@ def cossin(a):
     key = ("cs", t.get_id())
     if key in c.cache:
         return c.cache[key]
-    if _find_ite(t) is not None:
+    if _find_ite(t) is not None and not c.no_solver_in_execution:
         res = lift_ite(t, lambda u: cossin(Sym(u)))
         c.cache[key] = res
         return res
@@ -1048,7 +1075,7 @@ def exp_of(a):
     a = use(S(a))
     t = z3.simplify(a.term(), som=False)
     c.keep.append(t)
-    if _find_ite(t) is not None:
+    if _find_ite(t) is not None and not c.no_solver_in_execution:
         return lift_ite(t, lambda u: exp_of(Sym(u)))
     atoms, pc, kc = _lin(t)
     if pc != 0 or kc != 0:
@@ -1386,7 +1413,13 @@ class SymLib:
         c = ctx()
         a, m = use(S(a)), use(S(m))
         at, mt = a.term(), m.term()
+        ka, km = z3.simplify(at), z3.simplify(mt)
+        c.keep += [ka, km]
+        key = ("mod", ka.get_id(), km.get_id())
+        if key in c.cache:
+            return c.cache[key]
         r = c.fresh("mod")
+        c.cache[key] = Sym(r)
         c.shadow_set(r, lambda k: c.num(at, k) % c.num(mt, k) if c.num(mt, k) > 0 else None)
         c.add_fact(
             z3.And(
